@@ -391,6 +391,42 @@ def clt_case(ctx, rs, scope, pred, tag):
             return
 
 
+def zero_weight_case(ctx, k, report=None):
+    """a mixture with a component of weight EXACTLY zero and evidence that this dead component explains far better than every live
+    one (a Gaussian observation ~15 sigma from the live means, or ~110 observed near-deterministic binary variables): the dead
+    component has probability 0 given any evidence; the completion is the one of the best LIVE component"""
+    rs = np.random.RandomState(np_seed(ctx.sub_rng('zero-weight', k)))
+    if k % 2 == 0:
+        live = [Product(children=[Gaussian(0, float(rs.uniform(-0.5, 0.5)), 1.0), Bernoulli(1, float(rs.uniform(0.05, 0.3)))]) for _ in range(2)]
+        dead = Product(children=[Gaussian(0, 15.0, 1.0), Bernoulli(1, 0.95)])
+        ev, target, want = [15.0, None], 1, 0.0
+    else:
+        nb = 111
+        live = [Product(children=[Bernoulli(v, float(rs.uniform(0.3, 0.4))) for v in range(nb - 1)] + [Bernoulli(nb - 1, float(rs.uniform(0.05, 0.3)))]) for _ in range(2)]
+        dead = Product(children=[Bernoulli(v, 1.0) for v in range(nb - 1)] + [Bernoulli(nb - 1, 0.95)])
+        ev, target, want = [1.0] * (nb - 1) + [None], nb - 1, 0.0
+    pos = int(rs.randint(0, 3))
+    ch = live[:pos] + [dead] + live[pos:]
+    wl = rs.dirichlet(np.ones(2)) * 0.8 + 0.1
+    w = list(wl[:pos]) + [0.0] + list(wl[pos:])
+    root = assign_ids(Sum(children=ch, weights=np.array(w, dtype=np.float32)))
+    X = np.array([[np.nan if t is None else t for t in ev]] * 3, dtype=np.float32)
+    ctx.count('zero-weight-mixtures')
+    ctx.case('zero-weight', nontrivial_key=('zero-weight', k), sample=dict(kind='gaussian' if k % 2 == 0 else 'binary', dead_child_position=pos))
+    rep = dict(kind='c06-zero-weight', k=k, seed=ctx.seed)
+    for nj in (0, 2):
+        try:
+            Y = np.asarray(mpe(root, X.copy(), n_jobs=nj))
+        except Exception as ex:
+            ctx.violation(f'c06-raises:{type(ex).__name__}', f'mpe raised {type(ex).__name__}: {str(ex)[:160]} on a mixture with a zero-weight component', replay=rep)
+            return
+        if not np.all(Y[:, target] == want) or np.any(np.isnan(Y)):
+            ctx.violation('c06-zero-weight', f'mixture with a component of weight exactly 0 that explains the evidence best: mpe(n_jobs={nj}) completes x{target} with '
+                          f'{Y[:, target].tolist()} — the completion of the dead component (probability 0 given any evidence); every live component completes it with {want}',
+                          replay=rep)
+            return
+
+
 def run(ctx):
     quick = ctx.tier == 'quick'
     for k in range(80 if quick else 2000):
@@ -399,6 +435,10 @@ def run(ctx):
             return
     for k in range(50 if quick else 1000):
         circuit_case(ctx, k, False)
+        if ctx.n_new(with_input_only=True) >= 3:
+            return
+    for k in range(4 if quick else 40):
+        zero_weight_case(ctx, k)
         if ctx.n_new(with_input_only=True) >= 3:
             return
     kk = 0
@@ -443,6 +483,14 @@ def replay(rep):
         from harness.common import replay_demo
         return replay_demo(rep['replay'])
     r = rep['replay']
+    if r['kind'] == 'c06-zero-weight':
+        from harness.common import Ctx
+        c2 = Ctx('C06', 'quick', r['seed'])
+        c2.driver_ok = False
+        zero_weight_case(c2, r['k'])
+        for v in c2.violations:
+            print('  ', v['what'][:300])
+        return not c2.violations
     if r['kind'] == 'c06-clt':
         clt = BinaryCLT(r['scope'], root=r['scope'][r['pred'].index(-1)], tree=r['pred'], params=np.array(r['params'], dtype=np.float32))
         X = np.array([[np.nan if t is None else t for t in row] for row in r['rows']], dtype=np.float32)
